@@ -802,7 +802,7 @@ func init() {
 		concurrentSection("C02"),
 	)
 	core.Register(&core.Monitor{
-		ID: "C02", Level: "exploration", Plan: plan, Run: run, Terminates: true, CaseTimeout: 120e9,
+		ID: "C02", Level: "exploration", Plan: plan, Run: run, Terminates: true, CaseTimeout: 40e9,
 		Rule: "structure-aware mutations of valid (uncompressed and model-compressed) messages of all types (truncation at every point of short ones, bit/byte flips, counts/RDLENGTH/label-length/pointer fields set to boundary values, type swaps, splices), " +
 			"adversarial pointer graphs (self, forward, mutual, 1..200-hop chains, into a label, beyond the message, >255 expansions; chains of 100..8000 strictly backward pointers inside opaque RDATA used by 1..2000 records, open and closed into a loop), lying counts over tiny bodies, OPT/SVCB TLV soup, nearly well-formed payloads per EDNS0 option / SVCB key as the last thing in the message (client-subnet family x prefix x address length, cookie/LLQ/UL/expire/keepalive sizes, alpn/hint/mandatory element sizes), each input decoded from an exact-capacity copy and again from a buffer with foreign octets behind it, random strings 0..65535; " +
 			"every decoder (Msg.Unpack, UnpackRR, UnpackRRWithHeader under 18 types, UnpackDomainName at 5 offsets, IsMsg); oracle: no panic/fatal/hang, TotalAlloc delta <= 1024*len+64KiB, label/pointer-walk steps (verif counter) <= 128*len+512, decoding into a Msg that held another message equals decoding into a fresh one, offsets inside the input, records >= 11 octets each (questions >= 1), accepted names valid by the model, " +
